@@ -253,14 +253,21 @@ def run_sharded(binary, lines, shards, timeout, env=None, cwd=None):
         if rc != 0 or len(ol) != len(chunks[i]):
             # a crash (abort/segfault) inside a shard: re-run that shard line by line
             ol = []
+            hangs = 0
             for ln in chunks[i]:
+                if hangs >= 3:
+                    # three hanging cases isolated in this shard already (each is reported as a disagreement): the rest of
+                    # the shard is not run -- isolating every line of a hanging implementation would take hours
+                    ol.append('SKIP')
+                    continue
                 try:
                     pp = subprocess.run(binary if isinstance(binary, list) else [binary], input=ln + '\n', stdout=subprocess.PIPE,
-                                        stderr=subprocess.PIPE, text=True, timeout=min(timeout, 60), env=e, cwd=cwd)
+                                        stderr=subprocess.PIPE, text=True, timeout=min(timeout, 30), env=e, cwd=cwd)
                     lo = pp.stdout.splitlines()
                     ol.append(lo[0] if (pp.returncode == 0 and len(lo) == 1) else '3')   # 3 = abort
                 except subprocess.TimeoutExpired:
                     ol.append('4')                                                          # 4 = hang
+                    hangs += 1
         for j, l in enumerate(ol):
             merged[i + j * len(chunks)] = l
     return merged
@@ -589,6 +596,8 @@ def main():
                                env=getattr(prop, 'HARNESS_ENV', None))
         for k, c in enumerate(cases):
             io, mo = impl_out[k], model_out[k]
+            if io == 'SKIP' or mo == 'SKIP':
+                continue                     # not run (a shard with several hanging cases, see run_sharded)
             if io is None or mo is None:
                 mismatches.append((k, 'missing output'))
                 continue
@@ -621,7 +630,7 @@ def main():
             r2.shuffle(ks)
             pick += ks[:per]
         sample = [(ops[cases[k]['op']], cases[k]['args'], [parse_arg(t) for t in model_out[k].split(' ')]) for k in pick
-                  if model_out[k] is not None]
+                  if model_out[k] is not None and model_out[k] != 'SKIP']
         x_ok, x_msg, x_n = kernel_xcheck(pid, runname, sample, timeout=1500)
         if not x_ok:
             log(x_msg)
